@@ -63,6 +63,9 @@ func Index(
 		for {
 			hdr, err := tr.Next()
 			if err != nil {
+				// Padding only follows an end-of-archive marker; behind a damaged header the zero blocks are data
+				afterMarker := err == io.EOF
+
 				for {
 					curr, err := reader.Drive.Seek(0, io.SeekCurrent)
 					if err != nil {
@@ -86,23 +89,25 @@ func Index(
 						return err
 					}
 
-					// Skip the zero blocks with which i.e. GNU tar pads its end-of-archive marker up to the blocking factor
-					skipped, found, err := skipZeroBlocks(reader.Drive)
-					if err != nil {
-						return err
-					}
+					if afterMarker {
+						// Skip the zero blocks with which i.e. GNU tar pads its end-of-archive marker up to the blocking factor
+						skipped, found, err := skipZeroBlocks(reader.Drive)
+						if err != nil {
+							return err
+						}
 
-					if !found {
-						// EOF
-						hdr = nil
+						if !found {
+							// EOF
+							hdr = nil
 
-						break
-					}
+							break
+						}
 
-					if skipped > 0 {
-						totalBlocks := int64(record)*int64(pipes.RecordSize) + int64(block) + skipped
-						record = totalBlocks / int64(pipes.RecordSize)
-						block = totalBlocks - (record * int64(pipes.RecordSize))
+						if skipped > 0 {
+							totalBlocks := int64(record)*int64(pipes.RecordSize) + int64(block) + skipped
+							record = totalBlocks / int64(pipes.RecordSize)
+							block = totalBlocks - (record * int64(pipes.RecordSize))
+						}
 					}
 
 					tr = tar.NewReader(reader.Drive)
@@ -113,6 +118,8 @@ func Index(
 							// EOF
 							break
 						}
+
+						afterMarker = false
 
 						continue
 					}
